@@ -212,7 +212,16 @@ pub fn par_replay(cases: &[Value], rep: &mut Report, f: impl Fn(&[Value], &mut R
         let f = &f;
         sc.spawn(move || {
           let mut r = Report::new();
-          f(c, &mut r);
+          // a panic that escapes a harness's per-case guard is still data about the code under test
+          if let Err(p) = guarded(|| f(c, &mut r)) {
+            let id = std::thread::current().id();
+            let at = CURRENT
+              .lock()
+              .ok()
+              .and_then(|c| c.iter().find(|(t, _)| *t == id).map(|(_, s)| serde_json::from_str(s).unwrap_or(Value::String(s.clone()))))
+              .unwrap_or(Value::Null);
+            r.mismatch("no_panic/escaped_the_case_guard", &at, json!("no panic"), json!(p), "panic in the code under test");
+          }
           r
         })
       })
